@@ -19,10 +19,10 @@ with ThreadPoolExecutor(max_workers=4) as ex:
     for i, lines in ex.map(one, ids):
         meta = json.load(open(os.path.join(HERE, "seeded", i, "meta.json")))
         for l in lines:
-            m = re.match(r"(C\d+) seed=\S+ (CAUGHT|missed|ERROR[^(]*) \((\d+)s\) ?(.*)$", l)
+            m = re.match(r"(C\d+) seed=\S+ (CAUGHT|missed|ERROR[^(]*) \((\d+)s\) violations=(\d+) concrete=(\d+)", l)
             if m:
-                weak = "no-failing-input-found" in m.group(4) and "replay=" in m.group(4) and not re.search(r"replay=\S+( \||$)", m.group(4))
-                rows.append((i, m.group(1), m.group(2).strip(), "proof/correspondence only" if weak else ("with failing input" if m.group(2) == "CAUGHT" else ""), meta.get("summary", "")[:140].replace("|", "/").replace("\n", " ")))
+                how = "" if m.group(2) != "CAUGHT" else ("with failing input" if int(m.group(5)) > 0 else "proof/correspondence only (no-failing-input-found)")
+                rows.append((i, m.group(1), m.group(2).strip(), how, meta.get("summary", "")[:140].replace("|", "/").replace("\n", " ")))
                 print(l[:200]); sys.stdout.flush()
 with open(os.path.join(HERE, "seeded", "RESULTS.md"), "w") as f:
     f.write("| seeded change | check | result | how | what the change does |\n|---|---|---|---|---|\n")
